@@ -25,6 +25,8 @@ namespace
             if (cfg.prompt)
                 vt.prefix_string = cfg.prompt;
         }
+        int linecpy(char *dst, size_t size) { return readline_linecpy(&vt.rl, dst, size); }
+        const char *history(int k) { return readline_history_pointer(&vt.rl, k); }
         void key(int c) { vterm_automate_newdata(&vt, (int16_t)c); }
         unsigned len() { return (unsigned)sline_size(&vt.rl.line); }
         unsigned cursor() { return vt.rl.line.len - sline_rightsize(&vt.rl.line); }
@@ -44,6 +46,7 @@ namespace
         int left() { return sline_left(&sl); }
         int right() { return sline_right(&sl); }
         const char *getline() { return sline_getline(&sl); }
+        bool equal(const char *s) { return sline_equal(&sl, s); }
         unsigned len() { return (unsigned)sline_size(&sl); }
         unsigned cursor() { return sl.len - sline_rightsize(&sl); }
         const char *data() { return sl.buf; }
@@ -53,6 +56,7 @@ namespace
 VF_SUITE(keys_exhaustive, c15::exhA_count, c15::exhA_run<CTerm>)
 VF_SUITE(keys_exhaustive7, c15::exhB_count, c15::exhB_run<CTerm>)
 VF_SUITE(keys_random, c15::rnd_count, c15::rnd_run<CTerm>)
+VF_SUITE(keys_longline, c15::long_count, c15::long_run<CTerm>)
 VF_SUITE(sline_exhaustive, c15::slexh_count, c15::slexh_run<CSline>)
 VF_SUITE(sline_random, c15::slrnd_count, c15::slrnd_run<CSline>)
 
